@@ -245,7 +245,10 @@ func ValidJSONPatch(p map[string]any) bool {
 			return false
 		}
 		path, ok := o["path"].(string)
-		if !ok || protected(path) {
+		if !ok || protected(path) || (path != "" && path[0] != '/') {
+			return false
+		}
+		if from, ok := o["from"].(string); ok && from != "" && from[0] != '/' {
 			return false
 		}
 		if kind, _ := o["op"].(string); kind == "move" {
